@@ -162,6 +162,13 @@ func drain(r *mon.Result, bed *px.Bed, scripts *Scripts, clients []*rawcql.Clien
 	eo := exactlyOnce(evs, closed)
 	traces := Traces(evs)
 	r.Obs("requests_answered", eo.Answered)
+	for _, e := range evs {
+		if e.Src == "client" && e.K == "garbage" {
+			r.Violate(mon.Violation{Signature: fmt.Sprintf("C01/not-a-response-frame/%s", label),
+				Detail:   fmt.Sprintf("client %d received bytes that are not a response frame (%s): whatever was meant for its outstanding requests can no longer be told apart; first bytes %x", e.Cl, e.Note, e.Body[:minInt(len(e.Body), 32)]),
+				Scenario: scenario, Witness: historyOf(evs, e.Cl, int16(e.St), "")})
+		}
+	}
 	for _, e := range eo.Stray {
 		r.Violate(mon.Violation{Signature: fmt.Sprintf("C01/extra-frame/%s/%s", label, opName(e.Op)),
 			Detail:   fmt.Sprintf("client %d received a frame on stream %d with no outstanding request (duplicate or stray reply), opcode %v", e.Cl, e.St, primitive.OpCode(e.Op)),
@@ -1039,6 +1046,59 @@ func transparencyCheck(r *mon.Result, evs []mon.Event, label string, scenario ma
 					Scenario: scenario, Witness: as})
 				break
 			}
+		}
+	}
+	// response side: bytes that are not a frame at all, and replies whose flags / opcode / body are not those of any reply a
+	// backend sent for the request's token (frames the proxy made itself carry no echo of the token and are not compared)
+	replies := map[string][]mon.Event{}
+	for _, e := range evs {
+		if e.Src == "backend" && e.K == "reply" && e.Tok != "" {
+			if e.Note == "rawframe" { // written verbatim (error codes the reference codec cannot encode): header + body
+				if len(e.Body) < 9 {
+					continue
+				}
+				e.Fl, e.Op, e.Body = int(e.Body[1]), int(e.Body[4]), e.Body[9:]
+			}
+			replies[e.Tok] = append(replies[e.Tok], e)
+		}
+		if e.Src == "client" && e.K == "garbage" {
+			r.Violate(mon.Violation{Property: "C03", Signature: fmt.Sprintf("C03/response-altered/%s/not-a-response-frame", label),
+				Detail:   fmt.Sprintf("client %d received bytes that are not a response frame (%s); first bytes %x", e.Cl, e.Note, e.Body[:minInt(len(e.Body), 32)]),
+				Scenario: scenario})
+		}
+	}
+	lastSend := map[eoKey]mon.Event{}
+	for _, e := range evs {
+		if e.Src != "client" {
+			continue
+		}
+		k := eoKey{e.Cl, int16(e.St)}
+		if e.K == "send" {
+			lastSend[k] = e
+			continue
+		}
+		se, ok := lastSend[k]
+		if e.K != "recv" || !ok || se.Tok == "" || len(replies[se.Tok]) == 0 {
+			continue
+		}
+		delete(lastSend, k)
+		tok := fakecass.FindToken(e.Body)
+		if tok != se.Tok {
+			continue // made by the proxy, compressed (the token is not visible), or misrouted (C02 decides that)
+		}
+		r.Obs("storm_responses_byte_compared", 1)
+		same := false
+		for _, b := range replies[se.Tok] {
+			if b.Fl == e.Fl && b.Op == e.Op && bytesEqual(b.Body, e.Body) {
+				same = true
+				break
+			}
+		}
+		if !same {
+			b := replies[se.Tok][len(replies[se.Tok])-1]
+			r.Violate(mon.Violation{Property: "C03", Signature: fmt.Sprintf("C03/response-altered/%s/%s", label, opName(e.Op)),
+				Detail:   fmt.Sprintf("client %d stream %d token %s: the reply (flags %#x opcode %#x body %d bytes) equals none of the %d replies a backend sent for this request (last: flags %#x opcode %#x body %d bytes, first difference at %d)", e.Cl, e.St, se.Tok, e.Fl, e.Op, len(e.Body), len(replies[se.Tok]), b.Fl, b.Op, len(b.Body), firstDiff(e.Body, b.Body)),
+				Scenario: scenario})
 		}
 	}
 	n := 0
